@@ -2,8 +2,8 @@ SPECIFICATION Spec
 CONSTANTS
   OneByte = 3
   Pinned = FALSE
-  MaxDepth = 2
+  MaxDepth = 4
   StepConfigs <- MC_StepConfigs
-  MemoShapes <- MC_ShapesAll
+  MemoShapes <- MC_ShapesEmpty
 INVARIANTS Inv_C01 Inv_C02 Inv_C03 Inv_C05 Inv_C17 Inv_Progress
 CHECK_DEADLOCK FALSE
